@@ -170,7 +170,9 @@ impl Setsum {
 
     /// Creates a setsum from an ASCII/hex string.
     pub fn from_hexdigest(digest: &str) -> Option<Setsum> {
-        if digest.len() != SETSUM_BYTES * 2 {
+        // NOTE:  The string is sliced at byte offsets below, which panics off a character boundary,
+        // so anything that is not ASCII is turned away here.
+        if digest.len() != SETSUM_BYTES * 2 || !digest.is_ascii() {
             return None;
         }
         let mut bytes: [u8; SETSUM_BYTES] = [0u8; SETSUM_BYTES];
